@@ -13,6 +13,13 @@ CHECKS = {
                      "says nothing about values near int64 overflow, which the property excludes.",
                 note="Trusted: engine/refq.h (__int128 rationals + dual numbers), g++ 12. Operators that abort are caught by "
                      "running every form in forked workers."),
+    "C13": dict(engine="reify", category="exploration", design_ref="DESIGN.md §4 C13",
+                technique="bounded exhaustive enumeration of root-level construction histories on the real sat_core, truth-table oracle",
+                text="All argument lists up to length 3-4 over 2-4 variables (duplicates, complements, root-decided literals), all root "
+                     "pre-assignments, one- and two-call histories (cache hit/miss, amo-then-exo, ...), product encoding with 4-6 "
+                     "distinct variables; every construct is re-judged after every later step against the full truth table of the "
+                     "clause database. Exhaustive inside these bounds; longer lists only through the distinct-variable family.",
+                note="Trusted: engine/tt.h bitset truth tables; clause database read with -fno-access-control."),
 }
 
 PENDING_REASON = "check not built yet in this round (planned, see DESIGN.md §4); not claimed until its quick and thorough tiers have run to completion on the unchanged tree"
@@ -65,6 +72,8 @@ NA = {}
 ENGINES = [
     {"name": "arith_enum", "path": "harness/arith_enum.cpp", "serves_properties": ["C15"],
      "kind_free_text": "exhaustive operand x operator-form enumeration against reference arithmetic, forked workers"},
+    {"name": "reify", "path": "harness/reify.cpp", "serves_properties": ["C13"],
+     "kind_free_text": "exhaustive root-level construction histories on sat_core, truth-table oracle"},
 ]
 
 if __name__ == "__main__":
